@@ -503,7 +503,10 @@ func load(T types.Type, addr *value) value {
 		}
 		return a
 	case *types.Array:
-		v := (*addr).(array)
+		v, ok := (*addr).(array)
+		if !ok {
+			return *addr // opaque
+		}
 		a := make(array, len(v))
 		for i := range a {
 			a[i] = load(T.Elem(), &v[i])
@@ -531,8 +534,12 @@ func store(T types.Type, addr *value, v value) {
 			store(T.Field(i).Type(), &lhs[i], rhs[i])
 		}
 	case *types.Array:
-		lhs := (*addr).(array)
-		rhs := v.(array)
+		lhs, ok1 := (*addr).(array)
+		rhs, ok2 := v.(array)
+		if !ok1 || !ok2 {
+			*addr = v
+			return
+		}
 		for i := range lhs {
 			store(T.Elem(), &lhs[i], rhs[i])
 		}
